@@ -18,8 +18,13 @@ def run(ctx):
     S.key_role(ctx, L)
     ctx.rule("R-DELIVER-GUARD", "delivery on EOM status: announced sizes agree and the buffer is complete; in-order append", floor=3)
     S.deliver_guard(ctx, L)
+    ctx.rule("R-BAM-FRESH", "a new broadcast announcement never inherits the data of an unfinished one (no mixed message)", floor=1)
+    S.bam_fresh(ctx, L)
     ctx.rule("R-REFRESH", "each appended, non-completing data packet re-arms the receive deadline", floor=2)
     S.refresh(ctx, L)
+    ctx.rule("R-ANNOUNCED-PGN", "RTS/BAM and the send session carry data page | PF | (PS or 0) of the arguments", floor=4)
+    from rules import layout as _LY
+    _LY.announced_pgn(ctx, L)
     ctx.rule("R-DEST-CLASS", "BAM iff PS==255 or PDU2, RTS/CTS to PS otherwise", floor=3)
     T.dest_class(ctx, L)
     ctx.rule("R-REFUSE", "send_pgn returns False only when the pool is empty, without effects", floor=4)
